@@ -314,6 +314,43 @@ def nc_gt1(a):
     return a.size > 1
 
 
+# ---------------------------------------------------------------- large grids
+@st.composite
+def large_cases(draw):
+    return dict(nr=draw(st.sampled_from([1, 37, 300, 1000])), nc=draw(st.sampled_from([1, 53, 500, 800])), seed=draw(st.integers(0, 10**6)), nvars=draw(st.integers(1, 3)),
+                extra=draw(st.integers(0, 2)), two_d=draw(st.booleans()), dims=draw(st.sampled_from([None, ["lat", "lon"]])))
+
+
+def check_large(case, ctx):
+    rng = np.random.RandomState(case["seed"])  # a pure function of the generated case
+    nr, nc = case["nr"], case["nc"]
+    east = np.cumsum(rng.uniform(0.5, 2.0, nc)) + 1000.0
+    north = np.cumsum(rng.uniform(0.5, 2.0, nr)) - 500.0
+    ee, nn = np.meshgrid(east, north)
+    data = [rng.uniform(-1, 1, (nr, nc)) + k for k in range(case["nvars"])]
+    extras = [rng.uniform(0, 1, (nr, nc)) + 10 * (k + 1) for k in range(case["extra"])]
+    names = ["v%d" % k for k in range(case["nvars"])]
+    xnames = ["x%d" % k for k in range(case["extra"])]
+    coords = ((ee, nn) if case["two_d"] else (east, north)) + tuple(extras)
+    kw = {} if case["dims"] is None else dict(dims=tuple(case["dims"]))
+    if xnames:
+        kw["extra_coords_names"] = xnames if len(xnames) > 1 else xnames[0]
+    grid = vd.make_xarray_grid(coords, tuple(data) if len(data) > 1 else data[0], names if len(names) > 1 else names[0], **kw)
+    dims = tuple(case["dims"]) if case["dims"] else ("northing", "easting")
+    for name, arr in zip(names, data):
+        ctx.check(grid[name].dims == dims and np.array_equal(grid[name].values, arr), "variable %s of a %d x %d grid does not hold its source array", name, nr, nc)
+    ctx.check(np.array_equal(grid.coords[dims[1]].values, east) and np.array_equal(grid.coords[dims[0]].values, north), "axis coordinates of the grid are not the given ones")
+    for name, arr in zip(xnames, extras):
+        ctx.check(grid.coords[name].dims == dims and np.array_equal(grid.coords[name].values, arr), "extra coordinate %s is misplaced", name)
+    table = vd.grid_to_table(grid)
+    ctx.check(len(table) == nr * nc, "table has %d rows for a %d x %d grid", len(table), nr, nc)
+    ctx.check(np.array_equal(table[dims[0]].values, nn.ravel()) and np.array_equal(table[dims[1]].values, ee.ravel()), "table coordinates are not the row-major meshgrid")
+    for name, arr in zip(names + xnames, data + extras):
+        ctx.check(np.array_equal(table[name].values, arr.ravel()), "table column %s is not the raveled source array", name)
+    ctx.label("%dx%d" % (nr, nc), "2d" if case["two_d"] else "1d", "extra%d" % case["extra"])
+    ctx.nt(nr * nc > 1)
+
+
 SUBCHECKS = [
     Sub("arrays_to_grid_to_table", check_grid, strategy=grid_cases(), quick=400, thorough=2500, shards_quick=2,
         doc="make_xarray_grid places every value/extra coordinate at its cell; names/dims honoured; grid_to_table returns the raveled inputs"),
@@ -323,4 +360,6 @@ SUBCHECKS = [
         doc="meshgrid_from_1d and meshgrid_to_1d are mutually inverse and keep extra coordinates"),
     Sub("invalid", check_invalid, strategy=invalid_cases(), quick=300, thorough=1000, shards_thorough=4,
         doc="2-D inputs that are not meshgrids, mixed dimensions and name-count mismatches are rejected"),
+    Sub("large", check_large, strategy=large_cases(), quick=10, thorough=60, heavy=True,
+        doc="grids of up to 1000 x 800 cells (also single row/column): arrays -> Dataset -> table against numpy ravel"),
 ]
